@@ -88,7 +88,7 @@ MANIFEST_TEXT = ('Exhaustive enumeration of BAM files built by an independent SA
                  'position products, reference tables of 0..3 names, all ordered files of 2 records over 6 record variants, of 3 '
                  'records over 4 of them plus a seed-rotated quarter of the rest (quick) / all ordered files of 2..4 records '
                  'over 6 variants and of 5 records over 4 (thorough) x EVERY chunk size from the largest record to '
-                 'total+2 x up to 13 write selections and 20 write histories (a selection is written, then the same object / a further selection of it / its parent table is written and judged), the BGZF member boundary at every byte offset, and records with 16383/16384/65535 CIGAR ops '
+                 'total+2 x up to 15 write selections (incl. permutations that keep the first and the last record in place) and 20 write histories (a selection is written, then the same object / a further selection of it / its parent table is written and judged), the BGZF member boundary at every byte offset, and records with 16383/16384/65535 CIGAR ops '
                  'or > 64 KiB. Each field of each record is compared with the encoder input (lazy and eager), intervals with '
                  'pos + reference-consuming lengths and strand from 0x10, chunked reads with the whole read, and written '
                  'files are decoded by an independent decoder and re-read by bionumpy.')
@@ -161,7 +161,9 @@ V = [
 ]
 V_CORE = [0, 2, 3, 4]
 SELECTIONS = ['whole', 'mask-alt', 'mask-none', 'mask-all', 'rev', 'fancy-rep', 'slice1', 'step2', 'sel-sel', 'sel-sel-mask',
-              'touch-then-mask', 'stream', 'piecewise']
+              'touch-then-mask', 'stream', 'piecewise', 'perm-inner', 'perm-inner-tail']
+# perm-inner: first and last record stay, the records in between are reversed (the selection spans the same bytes as the
+# whole table but in another order); perm-inner-tail: the same on t[1:]
 SEL_SINGLE = ['whole', 'mask-none', 'fancy-rep', 'stream']
 # write histories: a selection is written (to a scratch file), THEN a second table is derived and written; the second
 # file is the judged one.  'same' = the selection object itself once more, 'parent' = the table it was taken from.
@@ -358,7 +360,7 @@ def fam_multi(tier, seed):
         out.append(F('multi3', [V[i] for i in t], chunks='all', writes=SELECTIONS if (core or tier == 'thorough') else ['whole', 'sel-sel'] + HISTORIES_SHORT))
     if tier == 'thorough':
         for t in itertools.product(idx, repeat=4):
-            out.append(F('multi4', [V[i] for i in t], chunks='all', writes=['whole', 'mask-alt', 'sel-sel-mask', 'fancy-rep'] + HISTORIES_SHORT))
+            out.append(F('multi4', [V[i] for i in t], chunks='all', writes=['whole', 'mask-alt', 'sel-sel-mask', 'fancy-rep', 'perm-inner'] + HISTORIES_SHORT))
         for t in itertools.product(V_CORE, repeat=5):
             out.append(F('multi5', [V[i] for i in t], chunks='all', writes=['whole', 'sel-sel-mask']))
     # one file with everything, a handful of chunk sizes
@@ -866,6 +868,11 @@ def sel_indices(sel, n):
         return idx[:1] + idx
     if sel == 'row':
         return idx[:1]
+    if sel == 'perm-inner':
+        return idx[:1] + idx[1:-1][::-1] + idx[-1:] if n >= 2 else idx
+    if sel == 'perm-inner-tail':
+        t = idx[1:]
+        return t[:1] + t[1:-1][::-1] + t[-1:] if len(t) >= 2 else t
     raise ValueError(sel)
 
 
@@ -900,6 +907,8 @@ def apply_sel(t, sel, n):
         return np.concatenate([t[:1], t])
     if sel == 'row':
         return t[0]
+    if sel in ('perm-inner', 'perm-inner-tail'):
+        return t[np.array(sel_indices(sel, n), dtype=int)]
     raise ValueError(sel)
 
 
